@@ -439,7 +439,8 @@ def check(ctx: Ctx) -> None:
             ob.violation(gi, gi.node, "lookup by id does not compare gateway ids")
         it = repo.flat(g.methods["__iter__"])
         r = [n for n in repo.own_nodes(it) if isinstance(n, ast.Return)]
-        if not r or "self._gateways" not in unparse(r[0].value) or "sorted" in unparse(r[0].value) or "reversed" in unparse(r[0].value):
+        rv = xtext(repo, it, r[0].value) if r else ""   # (locals expanded)
+        if not r or "self._gateways" not in rv or "sorted" in rv or "reversed" in rv:
             ob.violation(it, it.node, "iteration does not follow the member list's own order")
         reg = repo.func("multi.Group._register")
         ap = [c for c in repo.calls_in(reg) if callee_attr(c) == "append" and unparse(c.func.value) == "self._gateways"]
